@@ -47,7 +47,19 @@ TRow ==
   /\ div' = div + RefDiffs(Line)
   /\ LET f == SelectSeq(Checks(Line), LAMBDA c : ~c[1]) IN
        bad' = [i \in 1..Len(f) |-> [p |-> "C14", w |-> f[i][2], at |-> l]]
-TSpec == TInit /\ [][TRow]_<<l, bad, prevEnd, div>>
+\* routing at scale (one rank, LP counts beyond 2^28): the routing function of the code at an ascending sample of identifiers that
+\* contains the first and the last one
+BigChecks(x) ==
+  LET n == Len(x.rid) IN
+  << <<\A i \in 1..n : x.rid[i] >= 0 /\ x.rid[i] < x.T, "lid_to_rid routes an LP to a thread that does not exist (large LP count)">>,
+     <<\A i \in 1..(n - 1) : x.rid[i] <= x.rid[i + 1], "lid_to_rid is not monotone: ownership ranges are not contiguous (large LP count)">>,
+     <<x.rid[1] = 0 /\ x.rid[n] = x.T - 1, "the first/last LP is not routed to the first/last thread: a thread is left without LPs (large LP count)">> >>
+TBig ==
+  /\ l <= Len(TraceLog) /\ bad = <<>> /\ Line.e = "PartBig"
+  /\ l' = l + 1 /\ UNCHANGED <<prevEnd, div>>
+  /\ LET f == SelectSeq(BigChecks(Line), LAMBDA c : ~c[1]) IN
+       bad' = [i \in 1..Len(f) |-> [p |-> "C14", w |-> f[i][2], at |-> l]]
+TSpec == TInit /\ [][TRow \/ TBig]_<<l, bad, prevEnd, div>>
 Progress == TLCSet(1, IF l > TLCGet(1) THEN l ELSE TLCGet(1)) /\ (bad # <<>> => TLCSet(2, bad)) /\ TLCSet(3, div)
 Post == PrintT(<<"RESULT", TLCGet(1) - 1, Len(TraceLog), TLCGet(2)>>) /\ PrintT(<<"DIVERGENCES", TLCGet(3)>>)
 =============================================================================
